@@ -240,6 +240,11 @@ def run_case(scn: dict, sched: Optional[dict] = None, want_world: bool = False) 
     else:
         rec.ctl = None
     rec.ctl_for_clock = ctl
+    if sched.get("atomic_frac"):
+        # a random subset of the simulators answers synchronously (mixed in-process / remote-like latencies)
+        r2 = random.Random(vsims.H(sched.get("seed", 0), "atomic_sims"))
+        sched["atomic_sims"] = [s for s in sids if r2.random() < sched["atomic_frac"]]
+    rec.atomic_sims = set(sched.get("atomic_sims", []))
     rec.max_pre_yields = sched.get("pre_yields", 0)
     if scn.get("config", {}).get("rt_factor") is not None or sched.get("record_vt"):
         rec.clock = ctl.clock
